@@ -34,7 +34,7 @@ STATE_TIMEOUT = 300.0
 POLY = ("box", "hull", "mesh")
 
 ALPH = {
-    "pl": [7, 8, 9, 10, 11, 12, 16, 17, 18],
+    "pl": [7, 8, 9, 10, 11, 12, 16, 17, 18, 19, 20],
     "u": [0, 1, 3, 5, 7, 14, 20, 27, 28],
     "oa": [0, 5, 9, 24, 26, 28, 31],
     "ob": [0, 7, 13, 25, 27, 29, 30],
